@@ -9,6 +9,7 @@ import NiftyVerif.Lemmas.HarmonicInstance
 import NiftyVerif.Lemmas.HarmonicVolume
 import NiftyVerif.Lemmas.HarmonicSmooth
 import NiftyVerif.Lemmas.HarmonicCoo
+import NiftyVerif.Lemmas.HarmonicSHT
 
 namespace NiftyVerif.C09
 open NiftyVerif.Harmonic Finset
@@ -339,5 +340,33 @@ example (x : Nat → ℂ) :
             (Coo.apply (Coo.onAxis 3 (2 * 1 * 5) (dftCoo (-Complex.I) 4)) x))
           ((((2 * 4 + 3) * 2 + 1) * 1 + 0) * 5 + 4) :=
   subspace_transform_onAxis gridC 3 5 x 2 3 1 0 4 (by decide) (by decide) (by decide) (by decide) (by decide)
+
+/-- SHTOperator: `adjoint_times` (`_slice_p2h`) is the plain transpose of `times` (`_slice_h2p`), for every lmax, mmax,
+    pixelisation and all spherical-harmonic values — it only needs √2 = 2·√½ in the re-packing factors -/
+theorem sht_adjoint (cfg : ShtCfg K) (h2 : cfg.r2 = cfg.rh + cfg.rh) (x y : Nat → K) :
+    ∑ p ∈ range cfg.npix, y p * sliceH2P cfg x p = ∑ idx ∈ range cfg.nreal, sliceP2H cfg y idx * x idx :=
+  sht_adjoint_lemma cfg h2 x y
+
+/-- non-vacuity: lmax = 1, mmax = 1, 4 pixels over ℚ -/
+example (x y : Nat → ℚ) : ∑ p ∈ range 4, y p * sliceH2P shtQ x p = ∑ idx ∈ range 4, sliceP2H shtQ y idx * x idx :=
+  sht_adjoint shtQ (by norm_num [shtQ]) x y
+
+/-- documented normalisation (nifty_cl_volume.rst): with pixel volumes under which the real harmonics are orthonormal,
+    transforming a weighted field forth and back multiplies by c² = 1/(4π); and a unit monopole coefficient
+    synthesises a field of integral 1 (Y_00 = c, total volume V with c²V = 1, i.e. V = 4π) -/
+theorem sht_normalisation (cfg : ShtCfg K) (h2 : cfg.r2 = cfg.rh + cfg.rh) (vol : Nat → K) :
+    ((∀ a b, a < cfg.nreal → b < cfg.nreal →
+        ∑ p ∈ range cfg.npix, vol p * cfg.R a p * cfg.R b p = if b = a then 1 else 0) →
+      ∀ (x : Nat → K) (idx : Nat), idx < cfg.nreal →
+        sliceP2H cfg (fun p => vol p * sliceH2P cfg x p) idx = cfg.c * cfg.c * x idx)
+    ∧ (∀ V : K, 0 < cfg.L → (∀ p, p < cfg.npix → cfg.yre 0 p = cfg.c) → ∑ p ∈ range cfg.npix, vol p = V →
+        cfg.c * cfg.c * V = 1 →
+        ∑ p ∈ range cfg.npix, vol p * sliceH2P cfg (fun idx => if idx = 0 then 1 else 0) p = 1) :=
+  ⟨fun horth x idx hidx => sht_roundtrip_lemma cfg h2 vol horth x idx hidx,
+   fun V hL hY hV hc => sht_monopole_lemma cfg h2 hL vol V hY hV hc⟩
+
+/-- non-vacuity: the ℚ instance satisfies the orthonormality hypothesis (unit volumes) -/
+example (x : Nat → ℚ) : sliceP2H shtQ (fun p => 1 * sliceH2P shtQ x p) 3 = shtQ.c * shtQ.c * x 3 :=
+  (sht_normalisation shtQ (by norm_num [shtQ]) (fun _ => 1)).1 shtQ_orth x 3 (by decide)
 
 end NiftyVerif.C09
